@@ -70,6 +70,9 @@ type Enc struct {
 	autoDepth int // number of automatically (best-effort) inlined callees on the stack
 	privateCells []privateCell
 	extCells  []T // references of locals/captured variables introduced lazily (pairwise distinct)
+	writeRefs map[string]map[string]bool // during discovery: heap key -> object reference terms written
+	discNames map[string]bool            // names introduced during the current discovery pass
+	lastLoopRefs map[string][]string     // result of the last discovery: heap key -> loop-invariant written objects
 	topFn     *ssa.Function
 	pkg       *ssa.Package
 }
@@ -104,7 +107,14 @@ func (e *Enc) fresh(hint string) string {
 		hint = hint[:10] + ".." + hint[len(hint)-40:]
 	}
 	e.nameCtr[hint]++
-	return fmt.Sprintf("%s!%d", hint, e.nameCtr[hint])
+	n := fmt.Sprintf("%s!%d", hint, e.nameCtr[hint])
+	if e.discovery > 0 {
+		if e.discNames == nil {
+			e.discNames = map[string]bool{}
+		}
+		e.discNames[n] = true
+	}
+	return n
 }
 
 func (e *Enc) emit(s string) { e.out = append(e.out, s) }
@@ -177,6 +187,12 @@ func (e *Enc) obligeAssume(kind, label string, guard, goal T, src string, pos to
 		e.assert(Implies(guard, goal))
 		return
 	}
+	if kind == "arith" && e.contract != nil && e.contract.Opts["arith"] == "assume" {
+		// opt arith=assume: counters of this (large) function do not overflow; assumed and reported
+		e.assert(Implies(guard, goal))
+		e.noteAssumed(e.fnName + ": integer arithmetic of this function does not overflow (opt arith=assume)")
+		return
+	}
 	if kind == "bounds" && e.contract != nil && e.contract.Opts["bounds"] == "assume" {
 		// opt bounds=assume: index/slice safety of this (large, I/O) function is not the claim; assumed and reported
 		e.assert(Implies(guard, goal))
@@ -239,6 +255,7 @@ type Frame struct {
 	endStates map[int]*State
 	lets     map[string]Val
 	callOrd  map[string]int
+	regionLoop *LoopInfo // body contracts: the loop whose (extended) region is being encoded
 }
 
 func (e *Enc) newFrame(fn *ssa.Function, depth int, path string) *Frame {
@@ -492,7 +509,7 @@ func (e *Enc) havocAll(st *State, why string) {
 	}()
 	keep := map[string]T{}
 	for k, v := range st.H {
-		if strings.HasPrefix(k, "!called|") {
+		if strings.HasPrefix(k, "!called|") || strings.HasPrefix(k, "!ncalls|") {
 			keep[k] = v
 		}
 		delete(st.H, k)
@@ -782,7 +799,26 @@ func (e *Enc) loopHeader(fr *Frame, li *LoopInfo, guard T, st *State) (T, *State
 			if !ok {
 				continue
 			}
+			oldH := e.heapGet(st, k, srt)
 			st.H[k] = e.declare(srt, "Hl_"+sanitize(k))
+			// frame: the loop writes this component only at objects known before the loop, so every
+			// other object's entry is untouched
+			ksp, kty := heapKeyType(k)
+			if rs, ok := e.lastLoopRefs[k]; ok && srt.K == SArray && srt.Idx.K == SInt && !strings.HasPrefix(k, "G|") && !fams[ksp+"|"+kty] {
+				e.qCtr++
+				r := fmt.Sprintf("lf!%d", e.qCtr)
+				var ne []string
+				for _, x := range rs {
+					ne = append(ne, "(not (= "+r+" "+x+"))")
+				}
+				cond := "true"
+				if len(ne) == 1 {
+					cond = ne[0]
+				} else if len(ne) > 1 {
+					cond = "(and " + strings.Join(ne, " ") + ")"
+				}
+				e.emit(fmt.Sprintf("(assert (forall ((%s Int)) (=> %s (= (select %s %s) (select %s %s)))))", r, cond, st.H[k].E, r, oldH.E, r))
+			}
 		}
 	}
 	for _, ins := range hdr.Instrs {
@@ -870,6 +906,8 @@ func (e *Enc) discoverWrites(fr *Frame, li *LoopInfo, guard T, st *State) map[st
 	saveCells := len(e.privateCells)
 	e.discovery++
 	e.writes = map[string]bool{}
+	saveRefs, saveNames := e.writeRefs, e.discNames
+	e.writeRefs, e.discNames = map[string]map[string]bool{}, map[string]bool{}
 	sub := &Frame{fn: fr.fn, vals: map[ssa.Value]Val{}, edges: map[[2]int]*Edge{}, guards: map[int]T{}, loops: fr.loops,
 		contract: fr.contract, depth: fr.depth, path: fr.path, bind: fr.bind, region: li.blocks, lazy: true, entrySt: fr.entrySt,
 		endStates: map[int]*State{}, lets: fr.lets, callOrd: map[string]int{}}
@@ -906,6 +944,39 @@ func (e *Enc) discoverWrites(fr *Frame, li *LoopInfo, guard T, st *State) map[st
 		e.runRegion(sub, li, guard, st2)
 	}()
 	w := e.writes
+	// which objects were written, if they are all known before the loop (loop-invariant references)
+	e.lastLoopRefs = map[string][]string{}
+	for k, refs := range e.writeRefs {
+		ok := true
+		var rs []string
+		for r := range refs {
+			if strings.ContainsAny(r, " (") || e.discNames[r] {
+				ok = false
+				break
+			}
+			rs = append(rs, r)
+		}
+		if ok {
+			sort.Strings(rs)
+			e.lastLoopRefs[k] = rs
+		}
+	}
+	for k, refs := range e.writeRefs { // propagate to an enclosing discovery
+		if saveRefs != nil {
+			if saveRefs[k] == nil {
+				saveRefs[k] = map[string]bool{}
+			}
+			for r := range refs {
+				saveRefs[k][r] = true
+			}
+		}
+	}
+	for n := range e.discNames {
+		if saveNames != nil {
+			saveNames[n] = true
+		}
+	}
+	e.writeRefs, e.discNames = saveRefs, saveNames
 	e.discovery--
 	e.writes = saveWrites
 	if saveWrites != nil {
@@ -929,7 +1000,11 @@ func (e *Enc) discoverWrites(fr *Frame, li *LoopInfo, guard T, st *State) map[st
 
 // runRegion encodes the blocks of a loop starting at its header (header phis must be set).
 func (e *Enc) runRegion(fr *Frame, li *LoopInfo, guard T, st *State) {
-	order := rpo(fr.fn, li.header, li.blocks)
+	blocks := li.blocks
+	if fr.regionLoop == li && fr.region != nil {
+		blocks = fr.region // body contract: the loop plus its break/return tails
+	}
+	order := rpo(fr.fn, li.header, blocks)
 	for _, b := range order {
 		var g T
 		var s *State
@@ -1069,20 +1144,7 @@ func (e *Enc) exitEdge(fr *Frame, from, to *ssa.BasicBlock, guard T, st *State) 
 	if e.discovery > 0 || fr.contract == nil {
 		return
 	}
-	var li *LoopInfo
-	for _, l := range fr.loops {
-		if fr.region != nil && len(l.blocks) == len(fr.region) && l.blocks[from] {
-			same := true
-			for b := range l.blocks {
-				if !fr.region[b] {
-					same = false
-				}
-			}
-			if same {
-				li = l
-			}
-		}
-	}
+	li := fr.regionLoop
 	if li == nil {
 		return
 	}
@@ -1094,16 +1156,8 @@ func (e *Enc) exitEdge(fr *Frame, from, to *ssa.BasicBlock, guard T, st *State) 
 	// block that only returns (or panics) is the function returning from inside the loop
 	// when the loop head has its own exit (a loop condition), break statements target that same
 	// block: any other exit target is a return/goto path
-	if _, isIf := li.header.Instrs[len(li.header.Instrs)-1].(*ssa.If); isIf {
-		var natural *ssa.BasicBlock
-		for _, s := range li.header.Succs {
-			if !li.blocks[s] {
-				natural = s
-			}
-		}
-		if natural != nil && to != natural {
-			return
-		}
+	if natural := naturalExit(li); natural != nil && to != natural {
+		return
 	}
 	tb := to
 	for k := 0; k < 4; k++ {
@@ -1233,4 +1287,57 @@ func lastPhiIdx(b *ssa.BasicBlock) int {
 		}
 	}
 	return k
+}
+
+// bodyRegion is the set of blocks encoded for a loop-body contract: the natural loop plus the
+// tails that leave it (code executed after deciding to break or return, before control reaches
+// the block following the loop). Without a loop condition at the head there is no such distinguished
+// following block and the natural loop is used as is.
+func bodyRegion(li *LoopInfo) map[*ssa.BasicBlock]bool {
+	var natural *ssa.BasicBlock
+	natural = naturalExit(li)
+	r := map[*ssa.BasicBlock]bool{}
+	for b := range li.blocks {
+		r[b] = true
+	}
+	// a tail is a block outside the natural loop that can only be entered from the loop (or from
+	// other tails); the block the loop condition exits to, and what follows it, is not a tail
+	for changed := true; changed; {
+		changed = false
+		for _, b := range li.header.Parent().Blocks {
+			if r[b] || !li.header.Dominates(b) || b == natural || (natural != nil && natural.Dominates(b)) || len(b.Preds) == 0 {
+				continue
+			}
+			all := true
+			for _, p := range b.Preds {
+				if !r[p] {
+					all = false
+					break
+				}
+			}
+			if all {
+				r[b] = true
+				changed = true
+			}
+		}
+	}
+	return r
+}
+
+// naturalExit is the block a loop's own condition exits to, when the loop head tests that
+// condition (go/ssa names such heads "for.loop", "rangeindex.loop", ...). Rotated loops (range
+// over an integer) and `for {}` have none.
+func naturalExit(li *LoopInfo) *ssa.BasicBlock {
+	if !strings.HasSuffix(li.header.Comment, ".loop") {
+		return nil
+	}
+	if _, isIf := li.header.Instrs[len(li.header.Instrs)-1].(*ssa.If); !isIf {
+		return nil
+	}
+	for _, s := range li.header.Succs {
+		if !li.blocks[s] {
+			return s
+		}
+	}
+	return nil
 }
